@@ -90,6 +90,12 @@ def nonzero(ix, amount, fs):
                 strict.add((r, l))
     if isinstance(na, tuple) and len(na) == 3 and na[0] == "sub":
         return (na[2], na[1]) in strict
+    # |X| with a fact X != 0 in any spelling (is_zero, raw flag / magnitude, comparison with the signed zero)
+    for (k_, x_, o_) in sign_tests(ix, list(fs)):
+        if k_ == "is_zero" and o_ is False:
+            nz = N(ix, x_)
+            if nz == na or (isinstance(na, tuple) and len(na) == 2 and na[0] == "mag" and na[1] == nz):
+                return True
     return False
 
 
